@@ -168,16 +168,18 @@ def decodeBody (b : List UInt8) : Option (List Name × Form) :=
       (takeSegs (b.length / 4) b).map (·, if b.length = 4 then .canon else .raw)
     else none
 
-/-- the path a byte string encodes, if it is in the image of `encode` on valid paths -/
-def decode (e : List UInt8) : Option Path :=
+/-- candidate path of a byte string (prefix, then body) -/
+def decodeCandidate (e : List UInt8) : Option Path :=
   let (pre, body) : Pre × List UInt8 := match e with
     | [] => (.up 0, [])
     | b :: rest => if b = 0x5c then (.root, rest) else let (k, r) := stripCarets e; (.up k, r)
-  match decodeBody body with
+  (decodeBody body).map fun (segs, form) => ⟨pre, segs, form⟩
+
+/-- the path a byte string encodes, if it is in the image of `encode` on valid paths -/
+def decode (e : List UInt8) : Option Path :=
+  match decodeCandidate e with
   | none => none
-  | some (segs, form) =>
-    let p : Path := ⟨pre, segs, form⟩
-    if p.valid && encode p = e then some p else none
+  | some p => if p.valid && encode p = e then some p else none
 
 /-! ## well-formedness -/
 
@@ -306,5 +308,64 @@ def detachPre (t : ObjectTree) (obj arg : Nat) : Bool :=
 /-- `free(obj)`: live and without arguments -/
 def freePre (t : ObjectTree) (obj : Nat) : Bool :=
   live t obj && Fi t obj = INV && La t obj = INV
+
+/-- insert `x` right after the first occurrence of `a` -/
+def insertAfter (a x : Nat) : List Nat → List Nat
+  | [] => []
+  | y :: ys => if y = a then y :: x :: ys else y :: insertAfter a x ys
+
+/-! ## operation histories -/
+
+/-- the five editing operations -/
+inductive Op where
+  | new (opcode info tableHandle : Nat)
+  | append (obj arg : Nat)
+  | appendAfter (obj arg nextTo : Nat)
+  | detach (obj arg : Nat)
+  | free (obj : Nat)
+  deriving DecidableEq, Repr
+
+/-- the caller contract of an operation in state `t` -/
+def Op.pre (t : ObjectTree) : Op → Bool
+  | .new opcode _ _ => newPre t && decide (opcode ≠ pOpIntFreedObject)
+  | .append obj arg => appendPre t obj arg
+  | .appendAfter obj arg nextTo => appendAfterPre t obj arg nextTo
+  | .detach obj arg => detachPre t obj arg
+  | .free obj => freePre t obj
+
+/-- running one operation of the model -/
+def Op.run (t : ObjectTree) : Op → Res ObjectTree
+  | .new opcode info th => (t.newObject opcode info th).map (·.1)
+  | .append obj arg => t.append obj arg
+  | .appendAfter obj arg nextTo => t.appendAfter obj arg nextTo
+  | .detach obj arg => t.detach obj arg
+  | .free obj => t.free obj
+
+/-- running a history -/
+def runOps (t : ObjectTree) : List Op → Res ObjectTree
+  | [] => .ok t
+  | o :: os => (o.run t).bind fun t' => runOps t' os
+
+/-- a contract-respecting history: every operation's contract holds in the state it runs in -/
+def Legal (t : ObjectTree) : List Op → Prop
+  | [] => True
+  | o :: os => o.pre t = true ∧ ∀ t', o.run t = .ok t' → Legal t' os
+
+/-- executable version of `Legal` (used for concrete examples) -/
+def legalB (t : ObjectTree) : List Op → Bool
+  | [] => true
+  | o :: os => o.pre t && (match o.run t with | .ok t' => legalB t' os | .error _ => true)
+
+theorem legal_of_legalB : ∀ (ops : List Op) (t : ObjectTree), legalB t ops = true → Legal t ops := by
+  intro ops
+  induction ops with
+  | nil => intro t _; trivial
+  | cons o os ih =>
+    intro t h
+    simp only [legalB, Bool.and_eq_true] at h
+    refine ⟨h.1, fun t' ht' => ?_⟩
+    have h2 := h.2
+    rw [ht'] at h2
+    exact ih t' h2
 
 end Firefly.C13
